@@ -178,6 +178,38 @@ def gen_drop_reuse(rng):
     return Case(rust, coq, "drop-reuse", {"classes": [], "checks": []})
 
 
+def gen_open_vacuum(rng):
+    """VACUUM while another session holds an open transaction with uncommitted deletes and inserts: the engine aborts that
+    transaction before it vacuums (the reference rolls it back explicitly at that point), so nothing it wrote may be treated
+    as committed - neither its deletes removed for good nor its inserts kept"""
+    h = G.History()
+    t = G.Table(1, "t1", [("id", "INT", False, None), ("v", "INT", False, None)])
+    h.x(t.create_sql(), t.create_coq())
+    n = rng.choice([3, 5, 8])
+    rows = [[G.lit_int(i), G.lit_int(i * 10)] for i in range(1, n + 1)]
+    h.x(G.insert_sql(t, rows), G.insert_coq(t, rows), sorted_=True)
+    q = select_all(t)
+    h.begin(1)
+    for _ in range(rng.choice([1, 2])):
+        w = ("bin", "=", ("col", 0), G.lit_int(rng.randint(1, n)))
+        h.q(1, G.delete_sql(t, w), G.delete_coq(t, w), sorted_=True)
+    if rng.random() < 0.7:
+        r1 = [[G.lit_int(n + 1), G.lit_int(-1)]]
+        h.q(1, G.insert_sql(t, r1), G.insert_coq(t, r1), sorted_=True)
+    r2 = [[G.lit_int(n + 2), G.lit_int(-2)]]
+    h.x(G.insert_sql(t, r2), G.insert_coq(t, r2), sorted_=True)          # another client commits
+    h.rust.append("V"); h.coq.append("(ARollback 1, false)"); h.tags.append(None)
+    h.rust.append("D 1"); h.coq.append("(AVacuum, false)"); h.tags.append(None)      # the session object is dropped; its transaction is gone already
+    h.x(q.sql(), q.coq(), sorted_=True)
+    h.simple("V", "AVacuum")
+    h.x(q.sql(), q.coq(), sorted_=True)
+    if rng.random() < 0.5:
+        h.simple("O", "AReopen", "cache=10000")
+        h.x(q.sql(), q.coq(), sorted_=True)
+    rust, coq = h.render()
+    return Case(rust, coq, "open-vacuum", {"classes": [], "checks": []})
+
+
 def oracle(case, il):
     """independent of the model: reads before and after VACUUM agree; update/vacuum cycles do not grow the file"""
     segs = il.split(" | ")
@@ -210,6 +242,8 @@ def gen_cases(rng, tier):
         out.append(gen_cycles(rng, n_rows, cycles))
     for _ in range(6 if tier == "quick" else 60):
         out.append(gen_drop_reuse(rng))
+    for _ in range(8 if tier == "quick" else 80):
+        out.append(gen_open_vacuum(rng))
     return [G.tag_key_reuse(c) for c in out]
 
 
@@ -226,13 +260,15 @@ class C13(Spec):
             "independent of the model: the reads around each VACUUM are identical.  cycles: UPDATE of every row followed by VACUUM, "
             "10-40 times on 3-200 rows, with the file size sampled after each cycle; oracle: the size at the end does not exceed the "
             "size half-way.  drop-reuse: a multi-page table is dropped (or emptied) as the last commit before a VACUUM, new tables "
-            "reuse the released pages, VACUUM runs again (twice), with full reads in between and after a reopen.  Every answer is also compared with RefDB (where VACUUM is the identity).  non-trivial = history has a "
+            "reuse the released pages, VACUUM runs again (twice), with full reads in between and after a reopen.  open-vacuum: VACUUM runs while a session holds uncommitted deletes and inserts and another "
+            "client has committed since; the session is rolled back afterwards; full reads, a second VACUUM, a reopen.  Every answer is also compared with RefDB (where VACUUM is the identity).  non-trivial = history has a "
             "rolled-back or dropped session")
     trusted_extra = ["vac_tuple / vac_store (Proofs/VacuumProofs.v) are written by hand from Catalog::vacuum_btree (schema/catalog.rs) and "
                      "Database::vacuum (lib.rs); they are tied to the code by the SQL histories of this check and, for the row-level "
                      "operations they use (vacuum, undelete, delete, decode_for), by the C18 tuple stream",
-                     "VACUUM aborts open transactions in the engine; the generator closes every session before VACUUM, and the "
-                     "reference keeps sessions open - that difference is not exercised",
+                     "VACUUM aborts open transactions in the engine while the reference keeps sessions open: the random histories close "
+                     "every session before VACUUM; the open-vacuum histories run VACUUM with an open writer and tell the reference "
+                     "to roll that session back at that point",
                      "page-level space reuse (free list) belongs to C11; here only the file size over update/vacuum cycles is observed"]
     streams = [Stream("histories", "sql", ["Base.Bytes", "Model.Values", "Spec.RefDB", "Spec.RefDBRun"], "run_sql_case", gen_cases,
                       oracle=oracle, canon=canon, rust_shards=8, shard=40, reference=True,
